@@ -18,6 +18,7 @@ import json
 import logging
 import os
 import random
+from fractions import Fraction
 import shutil
 import subprocess
 import sys
@@ -111,6 +112,110 @@ def replay_history(item):
     return {'family': name, 'files0': files0, 'cwd0': hist['cwd0'], 'events': events, 'bad': ['bad']}
 
 
+# ---- parameters whose reading touches other parameters: the order in which the reader visits them must not depend on the hash seed
+
+def _values(m) -> dict:
+    from .c07 import num, params_of
+    out = {}
+    for mod, p in params_of(m):
+        if not hasattr(p, 'Name') or not hasattr(p, 'value'):
+            continue
+        v = p.value
+        try:
+            out[(mod, p.Name.strip())] = repr([float(x) for x in v]) if hasattr(v, '__len__') and not isinstance(v, str) else repr(num(v) if num(v) is not None else str(v))
+        except (TypeError, ValueError):
+            out[(mod, p.Name.strip())] = repr(str(v))
+    return out
+
+
+def side_effects(item):
+    """Worker: for every numeric / option parameter of one family, the OTHER parameters whose value changes when it alone is added
+    to the base input (the real Model() + read_parameters)."""
+    from .c07 import build, declared, params_of
+    fam, base = item
+    try:
+        m0 = build(base)
+    except BaseException:  # noqa: BLE001
+        return []
+    v0 = _values(m0)
+    out, seen = [], set()
+    for mod, p in params_of(m0):
+        if not hasattr(p, 'Name'):
+            continue
+        name = p.Name.strip()
+        d = declared(p)
+        if d is None or name in seen:
+            continue
+        seen.add(name)
+        if d['kind'] == 'int':
+            alts = [a for a in sorted(set(d['allow'])) if str(a) != str(d['cur']).split('/')[0]][:3]
+        else:
+            lo, hi = float(Fraction(d['lo'])), float(Fraction(d['hi']))
+            if not (abs(lo) < 1e12 and abs(hi) < 1e12):
+                continue
+            alts = [lo + (hi - lo) * f for f in (0.31, 0.62)]
+        eff = set()
+        for a in alts[:2]:
+            try:
+                m1 = build(base.rstrip('\n') + f'\n{name}, {a!r}\n')
+            except BaseException:  # noqa: BLE001
+                continue
+            v1 = _values(m1)
+            eff |= {k for k in v1 if k in v0 and v1[k] != v0[k] and k[1] != name}
+        if True:
+            out.append({'family': fam, 'name': name, 'alts': [repr(a) for a in alts], 'effects': sorted(f'{k[0]}.{k[1]}' for k in eff)})
+    return out
+
+
+def cross_pairs(bases: list, cap: int) -> list:
+    """Inputs that give two interfering parameters conflicting values: one writes the other (aliases, derived defaults) or both
+    write a third.  Discovery runs the real reader once per parameter; it is cached per source tree (.cache, keyed by the tree's hash)."""
+    from .common import CACHE, source_hash
+    cf = CACHE / f'c08_pairs_{source_hash()}.json'
+    if cf.exists():
+        found = json.loads(cf.read_text())
+    else:
+        found = [e for lst in sim.call_in_pool('harness.c08:side_effects', bases) for e in lst]
+        CACHE.mkdir(exist_ok=True)
+        cf.write_text(json.dumps(found))
+    by_fam = {}
+    for e in found:
+        by_fam.setdefault(e['family'], {})[e['name']] = e
+    base_of = dict(bases)
+    rel = {}     # (a, b) -> {'common': [...], 'writes': bool}
+    for fam, d in by_fam.items():
+        for a in d.values():
+            if not a['effects']:
+                continue
+            targets = {x.split('.', 1)[1] for x in a['effects']}
+            for b in d.values():
+                if b is a:
+                    continue
+                common = set(a['effects']) & set(b['effects'])
+                writes = b['name'] in targets
+                if not (common or writes):
+                    continue
+                key = tuple(sorted((a['name'], b['name'])))
+                r = rel.setdefault(key, {'common': set(), 'writes': False, 'families': []})
+                r['common'] |= common
+                r['writes'] = r['writes'] or writes
+                if fam not in r['families']:
+                    r['families'].append(fam)
+    out = []
+    for (a, b), r in sorted(rel.items(), key=lambda kv: (not kv[1]['writes'], kv[0])):
+        fams = list(r['families'])
+        if r['writes']:     # an alias may only matter in another family than the one it was noticed in
+            pref = [f for f in ('fervo', 'sbt', 'standard') if f in by_fam and a in by_fam[f] and b in by_fam[f]]
+            fams = pref + [f for f in fams if f not in pref]
+        for fam in fams[: (3 if r['writes'] else 1)]:
+            ea, eb = by_fam[fam][a], by_fam[fam][b]
+            if not ea['alts'] or not eb['alts']:
+                continue
+            out.append({'family': fam, 'a': a, 'b': b, 'common': sorted(r['common'])[:4], 'writes': r['writes'],
+                        'text': base_of[fam].rstrip('\n') + f"\n{a}, {ea['alts'][0]}\n{b}, {eb['alts'][-1]}\n"})
+    return out[:cap]
+
+
 def reference_digests(fams: list) -> dict:
     jobs = []
     for name, v1, v2 in fams:
@@ -166,7 +271,7 @@ def cli_run(item):
     cwd = root / 'sub' if startdir == 'sub' else Path('/')
     env = subprocess_env(hashseed=hashseed)
     env.pop('GEOPHIRES_X_VERIF', None)
-    p = subprocess.run([sys.executable, '-m', 'geophires_x', str(inp), str(out)], cwd=str(cwd), env=env, capture_output=True, text=True, timeout=600)
+    p = subprocess.run([sys.executable, '-m', 'geophires_x', str(inp), str(out)], cwd=str(cwd), env=env, capture_output=True, text=True, timeout=2400)
     dg = digest_report(out.read_text()) if out.exists() and p.returncode == 0 else f'failed rc={p.returncode}'
     shutil.rmtree(root, ignore_errors=True)
     return {'input': ident, 'digest': dg, 'how': f'cli seed={hashseed} cwd={startdir}'}
@@ -174,16 +279,16 @@ def cli_run(item):
 
 def run(tier: str, only_key: dict | None = None) -> int:
     res = Result('C08', tier)
-    r = tlc.run_tlc('Client', 'MC_Client.cfg', workers=16, timeout=900)
+    r = tlc.run_tlc('Client', 'MC_Client.cfg', workers=16, timeout=2400)
     tlc.check_mc(r, 'MC_Client.cfg', ['CacheHit', 'RunOk', 'RunFail', 'Rewrite', 'Chdir'])
     if r['violated']:
         raise MachineryFailure(f'Client.tla (repaired design) violates {r["violated"]}')
     res.add_mc(r, 'MC_Client.cfg')
-    rp = tlc.run_tlc('Client', 'MC_Client_pinned.cfg', workers=8, timeout=300)
+    rp = tlc.run_tlc('Client', 'MC_Client_pinned.cfg', workers=8, timeout=2400)
     if rp['violated'] not in ('C08_restore', 'C08_fresh'):
         raise MachineryFailure('pinned client design no longer violates C08_restore/C08_fresh: vacuity guard')
     res.cov['pinned_design_counterexample'] = rp['violated']
-    d = tlc.run_tlc('Client', 'Dump_Client.cfg', workers=1, coverage=False, timeout=900)
+    d = tlc.run_tlc('Client', 'Dump_Client.cfg', workers=1, coverage=False, timeout=2400)
     tlc.check_mc(d, 'dump')
     hists = [p for p in d['prints'] if isinstance(p, dict) and 'ops' in p]
     res.add_mc(d, 'Dump_Client.cfg (history generation)')
@@ -256,6 +361,18 @@ def run(tier: str, only_key: dict | None = None) -> int:
         for hs in ('0', '1', '12345'):
             for sd in ('sub', 'root'):
                 cli_items.append((ident, texts[ident], hs, sd))
+    # pairs of parameters whose reading interferes, under more hash seeds (a reader that visits them in set order would differ)
+    from .c07 import FAMILIES as C07_FAMILIES
+    xb = [(f, ex[n]) for f, n in C07_FAMILIES.items() if n in ex and f in ('standard', 'sbt', 'addons', 'district_heating', 'heatpump', 'overpressure')]
+    if 'Fervo_Norbeck_Latimer_2023' in ex:
+        xb.append(('fervo', ex['Fervo_Norbeck_Latimer_2023']))     # multilateral wells: the well-geometry options matter here
+    xpairs = cross_pairs(xb, 12 if tier == 'quick' else 60)
+    res.cov['interfering_parameter_pairs'] = [{k_: q[k_] for k_ in ('family', 'a', 'b', 'common')} for q in xpairs[:12]]
+    for q in xpairs:
+        ident = f"pair:{q['family']}:{q['a']}+{q['b']}"
+        texts[ident] = q['text']
+        for hs in (('0', '1', '2', '3') if tier == 'quick' else ('0', '1', '2', '3', '4', '5', '12345')):
+            cli_items.append((ident, q['text'], hs, 'sub'))
     cli_out = sim.call_in_pool('harness.c08:cli_run', cli_items)
     events = [e for s in seq_out for e in s] + cli_out
     htrace = [{'tid': 1, 'clause': 'C08_pure', 'events': events}]
